@@ -62,6 +62,36 @@ Theorem C07_implicit_exact_partial : forall sch f g d,
 Proof. exact validate_fresh_normal. Qed.
 Print Assumptions C07_implicit_exact_partial.
 
+(* The same for EDITED data (Implicit.editedb, executable; freshly parsed canonical data are a special case,
+   ImplicitP.fresh_edited): a tree - typically a validated one - after any edits that mark what they touch as new: nodes
+   freed, values changed, nodes created by path, moved with lyd_insert_*, created by lyd_diff_apply next to the default
+   instances they supersede. Per sibling list a new node is explicit, the default-flagged instances of a schema node are
+   none or the complete set with no old explicit instance beside them, nodes sit under their schema parent, terminal
+   nodes have no children, a non-presence container is default-flagged iff its children are. The siblings need NOT be
+   canonical (duplicates of a leaf are allowed as long as validation can resolve them). Then a successful validation
+   reaches the normal form: the cases are resolved (lyd_validate_choice_r leaves at most one case per choice populated -
+   proved for arbitrary input), superseded and left-over defaults are gone (the closed form of the node loop of
+   lyd_validate_new; lyd_validate_autodel_case_dflt as of 357db45), the missing defaults are created.
+   Partial: the hypothesis excludes the remaining deviation dflt-leaflist-partial (one of several default leaf-list
+   instances freed: the default set is not complete) and nodes that are new AND default (documents with default
+   attributes parsed without validation, empty NP containers created by path); both are covered by the correspondence run
+   only. *)
+Theorem C07_implicit_exact_edited_partial : forall sch f g d,
+  chc_okb sch = true -> editedb sch f = true -> f <> [] ->
+  validate_all sch f = Ok (g, d) -> normalb sch g = true.
+Proof. exact validate_edited_normal. Qed.
+Print Assumptions C07_implicit_exact_edited_partial.
+
+(* edit, validate, validate: the second validation changes nothing and reports an empty change list *)
+Theorem C07_validate_idempotent_edited : forall sch f g d g' d',
+  chc_okb sch = true -> editedb sch f = true -> f <> [] ->
+  validate_all sch f = Ok (g, d) -> validate_all sch g = Ok (g', d') -> g' = g /\ d' = [].
+Proof.
+  intros sch f g d g' d' Hk He Hne H1 H2.
+  exact (validate_normal_fixpoint sch g g' d' Hk (validate_edited_normal sch f g d Hk He Hne H1) H2).
+Qed.
+Print Assumptions C07_validate_idempotent_edited.
+
 (* parse, validate, validate: the second validation of freshly parsed data changes nothing and reports nothing *)
 Theorem C07_validate_idempotent_fresh : forall sch f g d g' d',
   chc_okb sch = true -> Canon sch f -> freshb sch f = true -> f <> [] ->
@@ -82,12 +112,13 @@ Print Assumptions C07_validate_idempotent_fresh.
 Theorem C07_nested_case_regression :
   exists sch f g,
     schema_okb sch = true /\ chc_okb sch = true /\ Canon sch f /\ np_flagsb sch f = true /\ flag_soundb sch f = true /\
+    editedb sch f = true /\
     (exists d, validate_all sch f = Ok (g, d)) /\ normalb sch g = true /\ strip f = g /\ validate_all sch g = Ok (g, []).
 Proof.
   destruct w1_facts as [H1 [H2 [_ [_ [H5 [H6 [H7 [H8 [H9 [H10 H11]]]]]]]]]].
   apply (proj1 (canonb_spec _ _ _)) in H5.
   exists w1_sch, w1_freed, w1_after.
-  split; [exact H1|]. split; [exact H2|]. split; [exact H5|]. split; [exact H6|]. split; [exact H7|].
+  split; [exact H1|]. split; [exact H2|]. split; [exact H5|]. split; [exact H6|]. split; [exact H7|]. split; [exact w1_f12|].
   split; [exact H8|]. split; [exact H9|]. split; [exact H10|exact H11].
 Qed.
 Print Assumptions C07_nested_case_regression.
@@ -96,13 +127,13 @@ Print Assumptions C07_nested_case_regression.
    validated (ll = x, y default), the instance x is freed; validation leaves ll = y (default-flagged) and reports no change *)
 Theorem C07_implicit_exact_refuted_leaflist :
   exists sch f,
-    schema_okb sch = true /\ chc_okb sch = true /\ Canon sch f /\ flag_soundb sch f = true /\
+    schema_okb sch = true /\ chc_okb sch = true /\ Canon sch f /\ flag_soundb sch f = true /\ editedb sch f = false /\
     validate_all sch f = Ok (f, []) /\ normalb sch f = false.
 Proof.
   destruct w2_facts as [H1 [H2 [_ [_ [H5 [H6 [H7 H8]]]]]]].
   apply (proj1 (canonb_spec _ _ _)) in H5.
   exists w2_sch, w2_freed.
-  split; [exact H1|]. split; [exact H2|]. split; [exact H5|]. split; [exact H6|]. split; [exact H7|exact H8].
+  split; [exact H1|]. split; [exact H2|]. split; [exact H5|]. split; [exact H6|]. split; [exact w2_f9|]. split; [exact H7|exact H8].
 Qed.
 Print Assumptions C07_implicit_exact_refuted_leaflist.
 
